@@ -103,8 +103,11 @@ func (w *World) applySweeps() {
 				continue
 			}
 			fc.Requires = append(fc.Requires, ti.Clause)
-			fc.Ensures = append(fc.Ensures, ti.Clause)
 			fc.Implicit = false
+			if ti.ReadOnly {
+				continue
+			}
+			fc.Ensures = append(fc.Ensures, ti.Clause)
 			rname := sig.Recv().Name()
 			if _, isPtr := sig.Recv().Type().(*types.Pointer); isPtr && rname != "" && rname != "_" && !contains(fc.Modifies, rname) {
 				fc.Modifies = append(fc.Modifies, rname)
